@@ -31,6 +31,49 @@ type c12Msg struct {
 	// DiffPos > 0: the hash list is built from two hashes that differ in exactly one byte
 	// (position DiffPos-1); Hashes then selects them by the digits '0' and '1'.
 	DiffPos int `json:"diff_pos,omitempty"`
+	// Dense > 0: the message is the full proof of Dense distinct leaves with every flag bit set
+	// (Hashes and Flags are ignored), then damaged: the first DupPairs sibling pairs at tree level
+	// DupLevel are made equal (each a CVE-2012-2459 defect), the last DropHashes hashes and the last
+	// DropFlagBytes flag bytes are removed.  Counts of defects around 2^8 and 2^16 are the point.
+	Dense         int `json:"dense_leaves,omitempty"`
+	DupPairs      int `json:"dup_pairs,omitempty"`
+	DupLevel      int `json:"dup_level,omitempty"`
+	DropHashes    int `json:"drop_hashes,omitempty"`
+	DropFlagBytes int `json:"drop_flag_bytes,omitempty"`
+}
+
+func c12Dense(cas c12Msg) ([]ref.Hash32, []byte) {
+	T := cas.Dense
+	hs := make([]ref.Hash32, T)
+	for i := range hs {
+		hs[i] = ref.Hash32{byte(i), byte(i >> 8), byte(i >> 16), 0x77}
+	}
+	blk := 1 << uint(cas.DupLevel)
+	for j := 0; j < cas.DupPairs; j++ {
+		for k := 0; k < blk; k++ {
+			if src, dst := 2*j*blk+k, (2*j+1)*blk+k; dst < T {
+				hs[dst] = hs[src]
+			}
+		}
+	}
+	nodes := 0
+	for w := T; ; w = (w + 1) / 2 {
+		nodes += w
+		if w == 1 {
+			break
+		}
+	}
+	flags := make([]byte, (nodes+7)/8)
+	for i := 0; i < nodes; i++ {
+		flags[i/8] |= 1 << uint(i%8)
+	}
+	if cas.DropHashes <= len(hs) {
+		hs = hs[:len(hs)-cas.DropHashes]
+	}
+	if cas.DropFlagBytes <= len(flags) {
+		flags = flags[:len(flags)-cas.DropFlagBytes]
+	}
+	return hs, flags
 }
 
 var c12Alpha = [3]ref.Hash32{{0x01}, {0x02, 0x02}, {0x03, 0x03, 0x03}}
@@ -51,7 +94,9 @@ func c12Eval(w *mc.W, cas c12Msg) {
 	w.Eval()
 	flags := mc.UnHex(cas.Flags)
 	var hashes []ref.Hash32
-	if cas.HonestN > 0 {
+	if cas.Dense > 0 {
+		hashes, flags = c12Dense(cas)
+	} else if cas.HonestN > 0 {
 		hashes = c12HonestHashes(cas)
 	} else if cas.DiffPos > 0 {
 		var a, b ref.Hash32
@@ -94,7 +139,7 @@ func c12Eval(w *mc.W, cas c12Msg) {
 		return
 	}
 	w.Outcome(fmt.Sprintf("succeeds with %d matches", min(len(wantMatches), 4)))
-	w.Nontrivial(mc.HashString(fmt.Sprint(cas.NumTx), cas.Hashes, cas.Flags, fmt.Sprint(cas.HonestN)))
+	w.Nontrivial(mc.HashString(fmt.Sprint(cas.NumTx), cas.Hashes, cas.Flags, fmt.Sprint(cas.HonestN, cas.Dense, cas.DupPairs, cas.DupLevel, cas.DropHashes, cas.DropFlagBytes)))
 	if root == nil {
 		c.Violate("rejects-message-the-specification-accepts", "msg", cas, "")
 		return
@@ -246,6 +291,63 @@ func runC12(c *mc.Ctx) {
 			w.State()
 			c12Eval(w, ds[i])
 		})
+	}
+
+	// dense proofs with many defects: a decoder that counts its problems instead of latching them
+	// forgets them when the count wraps (2^8, 2^16)
+	{
+		var ds []c12Msg
+		ladder := []int{0, 1, 2, 3, 127, 128, 129, 254, 255, 256, 257, 258, 511, 512, 513, 767, 768, 769, 1023, 1024, 1025}
+		var Ts []int
+		for T := 2; T <= 24; T++ {
+			Ts = append(Ts, T)
+		}
+		Ts = append(Ts, 255, 256, 257, 511, 512, 513, 514, 1023, 1024, 1025, 1536, 2048, 2049)
+		for _, T := range Ts {
+			var dups, drops []int
+			if T <= 24 {
+				for d := 0; d <= T/2; d++ {
+					dups = append(dups, d)
+				}
+				for d := 0; d <= T; d++ {
+					drops = append(drops, d)
+				}
+			} else {
+				dups, drops = ladder, ladder
+			}
+			for _, lvl := range []int{0, 1, 2} {
+				for _, d := range dups {
+					if 2*d<<uint(lvl) > T+(1<<uint(lvl)) || lvl > 0 && d == 0 {
+						continue
+					}
+					for _, k := range drops {
+						if k > T {
+							continue
+						}
+						for _, fb := range []int{0, 1, 2, 31, 32, 33, 64, 128} {
+							if fb > T/4+1 || T <= 24 && fb > 2 {
+								continue
+							}
+							ds = append(ds, c12Msg{NumTx: uint32(T), Dense: T, DupPairs: d, DupLevel: lvl, DropHashes: k, DropFlagBytes: fb})
+						}
+					}
+				}
+			}
+		}
+		if c.Thorough() {
+			for _, T := range []int{131072, 131074} {
+				for _, d := range []int{65535, 65536, 65537} {
+					ds = append(ds, c12Msg{NumTx: uint32(T), Dense: T, DupPairs: d})
+					ds = append(ds, c12Msg{NumTx: uint32(T), Dense: T, DropHashes: d})
+				}
+			}
+		}
+		c.Space("dense proofs (every flag bit set) with d equalised sibling pairs at level 0..2, k missing hashes, b missing flag bytes; d, k around 2^8, 2^9, 2^10 (2^16)", int64(len(ds)))
+		c.ParFor(int64(len(ds)), func(w *mc.W, i int64) {
+			w.State()
+			c12Eval(w, ds[i])
+		})
+		c.Sample("msg", c12Msg{NumTx: 512, Dense: 512, DupPairs: 256})
 	}
 
 	// mutations of honest proofs
